@@ -5,6 +5,9 @@
 //!
 //! stdin, one scenario per line:   <n> | <op> ; <op> ; ...
 //!   spawn <a> <kind> <sup|-> <pre> <post> <ps>   kind: 0 spawn 1 spawn_linked 2 spawn_instant 3 spawn_linked_instant
+//!                                                4 ActorCell::spawn_linked; +10: the actor keeps the library's default
+//!                                                handle_supervisor_evt (stops when a child terminates or fails)
+//!   stopkids <a> | drainkids <a> | stopkidsw <a> | drainkidsw <a>   stop_children / drain_children (_and_wait)
 //!                                                pre/post/ps: 1 = that callback parks at a closed gate
 //!   send <a> blk|err|panic      stop <a>   kill <a>   drain <a>   abort <a>
 //!   link <c> <p>   unlink <c> <p>   open <a> pre|post|h|ps   flush   settle
@@ -64,34 +67,41 @@ enum TMsg {
 }
 impl ractor::Message for TMsg {}
 
+macro_rules! tree_actor_callbacks {
+    () => {
+        type Msg = TMsg;
+        type State = Arc<Slot>;
+        type Arguments = Arc<Slot>;
+        async fn pre_start(&self, myself: ActorRef<TMsg>, slot: Arc<Slot>) -> Result<Arc<Slot>, ActorProcessingErr> {
+            *slot.cell.lock().unwrap() = Some(myself.get_cell());
+            slot.gates[G_PRE].wait().await;
+            Ok(slot)
+        }
+        async fn post_start(&self, _: ActorRef<TMsg>, slot: &mut Arc<Slot>) -> Result<(), ActorProcessingErr> {
+            slot.gates[G_POST].wait().await;
+            Ok(())
+        }
+        async fn post_stop(&self, _: ActorRef<TMsg>, slot: &mut Arc<Slot>) -> Result<(), ActorProcessingErr> {
+            slot.gates[G_PS].wait().await;
+            Ok(())
+        }
+        async fn handle(&self, _: ActorRef<TMsg>, m: TMsg, slot: &mut Arc<Slot>) -> Result<(), ActorProcessingErr> {
+            match m {
+                TMsg::Block => {
+                    slot.gates[G_H].wait().await;
+                    Ok(())
+                }
+                TMsg::Err => Err("handler error".into()),
+                TMsg::Panic => panic!("handler panic"),
+            }
+        }
+    };
+}
+
+/// supervision events are ignored
 struct H;
 impl Actor for H {
-    type Msg = TMsg;
-    type State = Arc<Slot>;
-    type Arguments = Arc<Slot>;
-    async fn pre_start(&self, myself: ActorRef<TMsg>, slot: Arc<Slot>) -> Result<Arc<Slot>, ActorProcessingErr> {
-        *slot.cell.lock().unwrap() = Some(myself.get_cell());
-        slot.gates[G_PRE].wait().await;
-        Ok(slot)
-    }
-    async fn post_start(&self, _: ActorRef<TMsg>, slot: &mut Arc<Slot>) -> Result<(), ActorProcessingErr> {
-        slot.gates[G_POST].wait().await;
-        Ok(())
-    }
-    async fn post_stop(&self, _: ActorRef<TMsg>, slot: &mut Arc<Slot>) -> Result<(), ActorProcessingErr> {
-        slot.gates[G_PS].wait().await;
-        Ok(())
-    }
-    async fn handle(&self, _: ActorRef<TMsg>, m: TMsg, slot: &mut Arc<Slot>) -> Result<(), ActorProcessingErr> {
-        match m {
-            TMsg::Block => {
-                slot.gates[G_H].wait().await;
-                Ok(())
-            }
-            TMsg::Err => Err("handler error".into()),
-            TMsg::Panic => panic!("handler panic"),
-        }
-    }
+    tree_actor_callbacks!();
     async fn handle_supervisor_evt(
         &self,
         _: ActorRef<TMsg>,
@@ -99,6 +109,84 @@ impl Actor for H {
         _: &mut Arc<Slot>,
     ) -> Result<(), ActorProcessingErr> {
         Ok(())
+    }
+}
+
+/// the library's default handle_supervisor_evt: stop when a child terminates or fails
+struct HD;
+impl Actor for HD {
+    tree_actor_callbacks!();
+}
+
+type StartFut = std::pin::Pin<Box<dyn std::future::Future<Output = ()> + Send>>;
+
+/// issue one of the spawn APIs for handler type T; kinds 0 spawn, 1 spawn_linked, 2 spawn_instant,
+/// 3 spawn_linked_instant, 4 ActorCell::spawn_linked
+fn issue_spawn<T>(mk: fn() -> T, kind: usize, sup: Option<ActorCell>, slot: &Arc<Slot>)
+where
+    T: Actor<Msg = TMsg, State = Arc<Slot>, Arguments = Arc<Slot>>,
+{
+    match kind {
+        0 | 1 | 4 => {
+            let s2 = slot.clone();
+            // the start future lives in the slot so that the driver can drop it itself
+            let fut: StartFut = Box::pin(async move {
+                let r = match (kind, sup) {
+                    (4, Some(p)) => p.spawn_linked(None, mk(), s2.clone()).await,
+                    (_, Some(p)) => Actor::spawn_linked(None, mk(), s2.clone(), p).await,
+                    (_, None) => Actor::spawn(None, mk(), s2.clone()).await,
+                };
+                match r {
+                    Ok((_, jh)) => {
+                        *s2.actor_task.lock().unwrap() = Some(jh);
+                        *s2.res.lock().unwrap() = Some(true);
+                    }
+                    Err(_) => *s2.res.lock().unwrap() = Some(false),
+                }
+            });
+            *slot.start_fut.lock().unwrap() = Some(fut);
+            // cancelling the polling task (op `abort`) drops the start future with it
+            let s3 = DropStart(slot.clone());
+            let h = tokio::spawn(std::future::poll_fn(move |cx| {
+                let mut g = s3.0.start_fut.lock().unwrap();
+                match g.as_mut() {
+                    None => std::task::Poll::Ready(()),
+                    Some(f) => match f.as_mut().poll(cx) {
+                        std::task::Poll::Ready(()) => {
+                            *g = None;
+                            std::task::Poll::Ready(())
+                        }
+                        std::task::Poll::Pending => std::task::Poll::Pending,
+                    },
+                }
+            }));
+            *slot.starter.lock().unwrap() = Some(h.abort_handle());
+        }
+        _ => {
+            let r = match sup {
+                Some(p) => ractor::ActorRuntime::<T>::spawn_linked_instant(None, mk(), slot.clone(), p),
+                None => ractor::ActorRuntime::<T>::spawn_instant(None, mk(), slot.clone()),
+            };
+            let (aref, outer) = match r {
+                Ok(x) => x,
+                Err(_) => {
+                    *slot.res.lock().unwrap() = Some(false);
+                    return;
+                }
+            };
+            *slot.cell.lock().unwrap() = Some(aref.get_cell());
+            *slot.starter.lock().unwrap() = Some(outer.abort_handle());
+            let s2 = slot.clone();
+            tokio::spawn(async move {
+                match outer.await {
+                    Ok(Ok(inner)) => {
+                        *s2.actor_task.lock().unwrap() = Some(inner);
+                        *s2.res.lock().unwrap() = Some(true);
+                    }
+                    _ => *s2.res.lock().unwrap() = Some(false),
+                }
+            });
+        }
     }
 }
 
@@ -203,66 +291,10 @@ async fn run_scenario(line: &str) -> String {
                     start_fut: Mutex::new(None),
                 });
                 slots[a] = Some(slot.clone());
-                match kind {
-                    0 | 1 => {
-                        let s2 = slot.clone();
-                        // the start future lives in the slot so that the driver can drop it itself
-                        let fut: std::pin::Pin<Box<dyn std::future::Future<Output = ()> + Send>> = Box::pin(async move {
-                            let r = match sup {
-                                Some(p) => Actor::spawn_linked(None, H, s2.clone(), p).await,
-                                None => Actor::spawn(None, H, s2.clone()).await,
-                            };
-                            match r {
-                                Ok((_, jh)) => {
-                                    *s2.actor_task.lock().unwrap() = Some(jh);
-                                    *s2.res.lock().unwrap() = Some(true);
-                                }
-                                Err(_) => *s2.res.lock().unwrap() = Some(false),
-                            }
-                        });
-                        *slot.start_fut.lock().unwrap() = Some(fut);
-                        // cancelling the polling task (op `abort`) drops the start future with it
-                        let s3 = DropStart(slot.clone());
-                        let h = tokio::spawn(std::future::poll_fn(move |cx| {
-                            let mut g = s3.0.start_fut.lock().unwrap();
-                            match g.as_mut() {
-                                None => std::task::Poll::Ready(()),
-                                Some(f) => match f.as_mut().poll(cx) {
-                                    std::task::Poll::Ready(()) => {
-                                        *g = None;
-                                        std::task::Poll::Ready(())
-                                    }
-                                    std::task::Poll::Pending => std::task::Poll::Pending,
-                                },
-                            }
-                        }));
-                        *slot.starter.lock().unwrap() = Some(h.abort_handle());
-                    }
-                    _ => {
-                        let r = match sup {
-                            Some(p) => ractor::ActorRuntime::<H>::spawn_linked_instant(None, H, slot.clone(), p),
-                            None => ractor::ActorRuntime::<H>::spawn_instant(None, H, slot.clone()),
-                        };
-                        let (aref, outer) = match r {
-                            Ok(x) => x,
-                            Err(_) => {
-                                *slot.res.lock().unwrap() = Some(false);
-                                continue;
-                            }
-                        };
-                        *slot.cell.lock().unwrap() = Some(aref.get_cell());
-                        *slot.starter.lock().unwrap() = Some(outer.abort_handle());
-                        let s2 = slot.clone();
-                        tokio::spawn(async move {
-                            match outer.await {
-                                Ok(Ok(inner)) => {
-                                    *s2.actor_task.lock().unwrap() = Some(inner);
-                                    *s2.res.lock().unwrap() = Some(true);
-                                }
-                                _ => *s2.res.lock().unwrap() = Some(false),
-                            }
-                        });
-                    }
+                if kind >= 10 {
+                    issue_spawn::<HD>(|| HD, kind - 10, sup, &slot);
+                } else {
+                    issue_spawn::<H>(|| H, kind, sup, &slot);
                 }
             }
             "send" => {
@@ -297,6 +329,20 @@ async fn run_scenario(line: &str) -> String {
                         jh.abort();
                     } else if let Some(h) = s.starter.lock().unwrap().as_ref() {
                         h.abort();
+                    }
+                }
+            }
+            "stopkids" | "drainkids" | "stopkidsw" | "drainkidsw" => {
+                if let Some(c) = cell_of(&slots, idx(t[1])) {
+                    match t[0] {
+                        "stopkids" => c.stop_children(None),
+                        "drainkids" => c.drain_children(),
+                        "stopkidsw" => {
+                            tokio::spawn(async move { c.stop_children_and_wait(None, None).await });
+                        }
+                        _ => {
+                            tokio::spawn(async move { c.drain_children_and_wait(None).await });
+                        }
                     }
                 }
             }
